@@ -174,8 +174,10 @@ Record TrainParts := {
 Definition car_mass (c : Car) : F := car_mass_base c + car_mass_freight c.
 Definition fsum (f : Car -> F -> F) (cars : list Car) : F := fold_left (fun acc c => f c acc) cars n0.
 
-Definition aggregate (cars : list Car) (cars_total loco_mass : F) : TrainParts :=
-  let towed := fsum (fun c acc => acc + car_mass c * car_n c * n1) cars in
+(* [ov] = TrainConfig.train_mass: when given it REPLACES the summed mass of the cars (make_train_params:
+   towed_mass_static = train_mass.unwrap_or(sum)); the locomotives' mass is added to it all the same *)
+Definition aggregate_ov (ov : option F) (cars : list Car) (cars_total loco_mass : F) : TrainParts :=
+  let towed := match ov with Some m => m | None => fsum (fun c acc => acc + car_mass c * car_n c * n1) cars end in
   let length := fsum (fun c acc => acc + car_length c * car_n c) cars in
   {| tp_length := length; tp_towed_mass := towed; tp_mass_static := towed + loco_mass;
      tp_mass_rot := fsum (fun c acc => acc + car_mass_rot_per_axle c * car_n c * car_axles c) cars;
@@ -186,5 +188,7 @@ Definition aggregate (cars : list Car) (cars_total loco_mass : F) : TrainParts :
                  rp_rolling := fsum (fun c acc => acc + car_rolling_ratio c * car_mass c / towed * car_n c * n1) cars;
                  rp_davis_b := fsum (fun c acc => acc + car_davis_b c * car_mass c / towed * car_n c * n1) cars;
                  rp_cd_area := fsum (fun c acc => acc + car_cd_area c * car_n c) cars |} |}.
+
+Definition aggregate (cars : list Car) (cars_total loco_mass : F) : TrainParts := aggregate_ov None cars cars_total loco_mass.
 
 End Resist.
